@@ -182,7 +182,9 @@ Definition step (l : lab) (s : cl) : cl :=
   | Stop =>
       if started s && negb (closing s) then
         let s1 := emit (set_conn s false) EStop in
-        set_handler (set_run s1 true true) (handlerOn s1) true
+        (* Stop itself drops the registered callbacks (repair F35: the callback routine of the stopped session may
+           get to its stop signal only after the next session has begun) *)
+        set_cbq (set_handler (set_run s1 true true) (handlerOn s1) true) []
       else s
   | Start =>
       if negb (started s) then
@@ -225,7 +227,7 @@ Definition step (l : lab) (s : cl) : cl :=
         end
       else s
   | DeliverStop =>
-      if handlerOn s && stopSig s then set_handler (set_cbq s []) false false else s
+      if handlerOn s && stopSig s then set_handler s false false else s
   end.
 
 Definition run (ls : list lab) (s : cl) : cl := fold_left (fun s l => step l s) ls s.
